@@ -299,7 +299,7 @@ func c06ChildTarget(c *core.Ctx, idx int) {
 		// code: a unique-indexed field that holds the entity's own id (a natural key used as the id)
 		Fields: []schema.Field{{Name: "lead", Kind: schema.KStr, FK: leadKey}, {Name: "levels", Kind: schema.KI64Set}, {Name: "code", Kind: schema.KStr}},
 		SetIdx: []string{"levels"}, Unique: []schema.UniqueDef{{Field: "code", Nullable: true}},
-		FKs:    []schema.FKDef{{Field: "lead", Target: leadKey, Kind: fkKind, BackRef: "tasks"}}}
+		FKs: []schema.FKDef{{Field: "lead", Target: leadKey, Kind: fkKind, BackRef: "tasks"}}}
 	sc := schema.Build([]*schema.StoreDef{people, leads, tasks})
 	path := c.TempFile("c06t")
 	db, err := sc.OpenDb(path)
